@@ -9,6 +9,9 @@
     Posterior or to an element of that replaced list.
  R4 a conditioned copy keeps the name of its original (_make_copy back pointer, name getter, setter refuses on copies).
  R5 both Gibbs samplers work on target() (a conditioned copy), never on the caller's joint.
+ R7 no in-place write in sampler code reaches an object owned by the target (shared with the user's original by the shallow copies).
+ R6 lazy caches accepted by R1 are coherent: every writer of a field the cached value was computed from resets the cache, and no
+    such field is a plain public attribute (conditioning re-binds those on a shallow copy that inherits the filled cache).
 """
 from __future__ import annotations
 import ast
@@ -219,6 +222,63 @@ def run(chk, repo: Repo):
     _r3(chk, repo)
     _r4(chk, repo)
     _r5(chk, repo)
+    chk.rule("C11-R6", "the lazy caches R1 accepts are coherent through shallow copies: a compute-once cache survives copy(self), so every field its value "
+                       "was computed from is either never re-bound on a copy or re-binding it resets the cache (otherwise inspecting the original changes "
+                       "what its later conditioned copies report)", floor=3)
+    from ..cachecoh import cache_coherence
+    cache_coherence(chk, repo, "C11-R6", ("cuqi/density/", "cuqi/distribution/", "cuqi/likelihood/", "cuqi/implicitprior/", "cuqi/problem/"))
+    chk.rule("C11-R7", "sampler code never writes in place into an object it reached through its target (self.target / prior / likelihood / model ...): "
+                       "the arrays behind a conditioned copy's parameters are shared with the user's original through the shallow copy", floor=8)
+    _r7(chk, repo)
+
+
+# ------------------------------------------------------------------------------------------------ R7
+TARGET_OWNED = {"target", "_target", "prior", "likelihood", "likelihoods", "model", "models", "data", "posterior"}
+_R7_CONTROL = """
+class S:
+    def sample(self):
+        rate = self.target.prior.rate
+        rate += 1.0
+        own = self._acc
+        own.append(1)
+"""
+
+
+def _r7_scan(fn, resolver):
+    fa = FnAlias(fn, method_resolver=resolver)
+    out, total = [], 0
+    for root, node, an, k in fa.mutated_roots():
+        total += 1
+        seg = root.split(":")[-1].split(".")
+        if len(seg) >= 3 and seg[0] == "self" and seg[1] in TARGET_OWNED:
+            out.append((root, an, k))
+    return out, total
+
+
+def _r7(chk, repo):
+    ctl_fn = ast.parse(_R7_CONTROL).body[0].body[0]
+    hits, tot = _r7_scan(ctl_fn, None)
+    if [h[0] for h in hits] != ["self.target.prior.rate"] or tot != 2:
+        raise AnchorError(f"C11-R7 positive control: expected exactly the in-place write through self.target.prior.rate, got {[h[0] for h in hits]} of {tot}")
+    nfun = nmut = 0
+    for m in repo.modules.values():
+        if not m.rel.startswith(("cuqi/experimental/mcmc/", "cuqi/sampler/")):
+            continue
+        repo.consulted[m.rel] = m.digest
+        for ci in m.classes.values():
+            for kind, name, fn in ci.all_functions():
+                nfun += 1
+                hits, tot = _r7_scan(fn, (lambda nm, _ci=ci: (_ci.lookup(nm) or (None, None))[1]))
+                nmut += tot
+                inst = f"{ci.qual}.{name}"
+                for root, an, k in hits:
+                    chk.fail("C11-R7", f"{inst}/{root}", site(repo, an),
+                             f"in-place {k} `{unparse(an)[:80]}` writes into `{root}`, an object owned by the sampler's target: the conditioned copies the sampler "
+                             f"works on are shallow, so the write lands in the array of the user's original distribution (and of every other copy)", an)
+                if tot and not hits:
+                    chk.ok("C11-R7", inst, site(repo, fn), f"{tot} in-place writes, all into the sampler's own state or parameters", fn)
+    chk.extra["functions_analysed_R7"] = nfun
+    chk.note(f"C11-R7 analysed {nfun} sampler functions, {nmut} in-place writes")
 
 
 # ------------------------------------------------------------------------------------------------ R1
@@ -519,6 +579,26 @@ def _r4(chk, repo):
     ok = any(isinstance(n, ast.Call) and pn(n) == "self._make_copy()" for n in ast.walk(c))
     chk.add("C11-R4", f"{dist.qual}._condition", ok, site(repo, c), "conditioned distribution is created by _make_copy()",
             "Distribution._condition does not create its result with _make_copy()", c)
+    # every _condition of a class whose name is answered by Density.name (back pointer) copies itself through _make_copy(): a plain copy(self)
+    # has no _original_density, so the conditioned object answers `.name` from a stale snapshot or a stack search for the copy
+    from .common import canon_keep
+    n = 0
+    for ci in repo.subclasses(D):
+        fn = ci.methods.get("_condition")
+        if fn is None or is_abstract(fn) or ci.qual == dist.qual:
+            continue
+        pr = ci.lookup_prop("name")
+        if pr is None or pr.getter is not p.getter:
+            continue                      # the class answers its name itself (Likelihood: derived from the data distribution)
+        n += 1
+        fv = canon_keep(repo, ci, fn, {"_make_copy"})
+        plain = [x for x in ast.walk(fv) if isinstance(x, ast.Call) and call_name(x) in ("copy", "copy.copy", "deepcopy", "copy.deepcopy")
+                 and x.args and path_of(x.args[0]) == "self"]
+        chk.add("C11-R4", f"{ci.qual}._condition", not plain, site(repo, fn), "no plain copy(self): the conditioned object is created by _make_copy() / super()._condition",
+                f"`{unparse(plain[0]) if plain else ''}` creates the conditioned object without the back pointer to its original: it does not keep the original's "
+                f"random-variable name (Density.name defers to _original_density only for copies made by _make_copy)", fn)
+    if n < 1:
+        raise AnchorError("no _condition override below Distribution found (RegularizedGaussian confirmed by hand)")
 
 
 def _test_named(g, txt):
